@@ -23,7 +23,7 @@ REPO = os.environ.get('VERIF_REPO', '/repo')
 CACHE = os.environ.get('VERIF_CACHE', os.path.join(VERIF, '.cache'))
 HARNESS = os.path.join(VERIF, 'harness')
 NIGHTLY = 'nightly'
-DEP_CRATES = ['unsigned-varint']          # interpreted from their own MIR
+DEP_CRATES = ['unsigned-varint', 'libp2p-identity']          # interpreted from their own MIR
 
 RUSTC_MIR = ['-Zunpretty=mir', '-Ztrim-diagnostic-paths=no', '-C', 'debug-assertions=off', '-C', 'overflow-checks=on']
 RUSTC_SMIR = ['-Zunpretty=stable-mir', '-Ztrim-diagnostic-paths=no']
@@ -164,6 +164,13 @@ def _dep_specs(env):
     pk = {p['id']: p for p in md['packages']}
     root = [n for n in md['resolve']['nodes'] if pk[n['id']]['name'] == 'litep2p'][0]
     out = {}
+    byname = {}
+    for p in md['packages']:
+        byname.setdefault(p['name'], []).append(p)
+    for name, ps in byname.items():
+        if len(ps) == 1:
+            out[name] = '%s@%s' % (name, ps[0]['version'])
+    # direct dependencies win where several versions of a crate are in the graph
     for d in root['deps']:
         p = pk[d['pkg']]
         out[p['name']] = '%s@%s' % (p['name'], p['version'])
